@@ -19,6 +19,9 @@ import (
 	"verif/env"
 	"verif/ref/wire"
 	"verif/sched"
+	"verif/shim/vsync"
+
+	"google.golang.org/grpc/metadata"
 )
 
 // C13 — concurrent requests are isolated; pooled buffers and compressors never leak or
@@ -34,6 +37,7 @@ type echoImpl struct {
 	t    *tSchema
 	mu   sync.Mutex // real mutex: the free-running pass calls handlers concurrently
 	kept []keptMsg
+	seen [][]byte // duplex calls: the payloads received, in order
 }
 
 type keptMsg struct {
@@ -76,7 +80,44 @@ func (e *echoImpl) Unary(c *dyn.Call) (proto.Message, error) {
 	return out, nil
 }
 
+// duplex: a full-duplex bidi handler - a second goroutine sends replies of its own while the
+// first keeps receiving (what larking's own proxy handler does with its pump): one stream's
+// Send and Recv overlap, so whatever they share inside the stream object shows.
+func (e *echoImpl) duplex(c *dyn.Call, tag string) error {
+	var wg vsync.WaitGroup
+	wg.Add(1)
+	sched.GoNamed("duplex-sender", func() {
+		defer wg.Done()
+		for k := 0; k < 2; k++ {
+			sched.Point("handler step", nil)
+			out := dynamicpb.NewMessage(c.Desc.Output())
+			setSBN(out, "", []byte(fmt.Sprintf("%s reply %d zyxwvutsrqponm", tag, k)), 0)
+			e.keepReply(out)
+			if err := c.Stream.SendMsg(out); err != nil {
+				return
+			}
+		}
+	})
+	for {
+		m := dynamicpb.NewMessage(c.Desc.Input())
+		if err := c.Stream.RecvMsg(m); err != nil {
+			break
+		}
+		sched.Point("handler step", nil)
+		e.keep(m)
+		in := m.ProtoReflect()
+		e.mu.Lock()
+		e.seen = append(e.seen, append([]byte(nil), in.Get(in.Descriptor().Fields().ByName("b")).Bytes()...))
+		e.mu.Unlock()
+	}
+	wg.Wait()
+	return nil
+}
+
 func (e *echoImpl) Stream(c *dyn.Call) error {
+	if md, ok := metadata.FromIncomingContext(c.Stream.Context()); ok && len(md.Get("x-duplex")) > 0 {
+		return e.duplex(c, md.Get("x-duplex")[0])
+	}
 	// Upload / Bidi: echo every message
 	for {
 		m := dynamicpb.NewMessage(c.Desc.Input())
@@ -105,6 +146,7 @@ func (e *echoImpl) Stream(c *dyn.Call) error {
 
 type c13Sys struct {
 	t    *tSchema
+	srv  http.Handler // larking.NewServer(mux, MuxHandleOption("/api", "/")).Handler
 	mux  *larking.Mux
 	impl *echoImpl
 	mu   sync.Mutex
@@ -129,11 +171,15 @@ func newC13Sys() *c13Sys {
 	if err := m.VerifRegisterService(c13T.gsd, dyn.NewServer(impl)); err != nil {
 		panic(err)
 	}
-	return &c13Sys{t: c13T, mux: m, impl: impl, obs: map[int]string{}}
+	srv, err := larking.NewServer(m, larking.MuxHandleOption("/api", "/"))
+	if err != nil {
+		panic(err)
+	}
+	return &c13Sys{t: c13T, mux: m, srv: srv.Handler, impl: impl, obs: map[int]string{}}
 }
 
 // c13Kinds: request kinds chosen to collide on bytesPool, bufPool and the gzip pools.
-var c13Kinds = []string{"http-json", "http-json-gzip", "http-body", "http-upload", "grpc", "grpc-gzip", "web", "http-stream-gzip", "http-stream-2in1", "web-gzip", "grpc-gzip-corrupt", "grpc-gzip-oversize", "http-gzip-corrupt"}
+var c13Kinds = []string{"grpc-duplex", "http-duplex", "mount-json", "mount-escaped-json", "http-json", "http-json-gzip", "http-body", "http-upload", "grpc", "grpc-gzip", "web", "http-stream-gzip", "http-stream-2in1", "web-gzip", "grpc-gzip-corrupt", "grpc-gzip-oversize", "http-gzip-corrupt"}
 
 func c13Payload(thread int, size int) []byte {
 	b := make([]byte, size)
@@ -182,6 +228,36 @@ func c13Request(s *c13Sys, thread int, kind string, size int) string {
 	case "http-stream-gzip":
 		two := append(append([]byte{}, js...), js...)
 		res = doHTTPSched(s.mux, "POST", "/t/bidi", http.Header{"Content-Type": {"application/json"}, "Content-Encoding": {"gzip"}}, body(gzipBytes(two)))
+	case "grpc-duplex", "http-duplex":
+		// one bidi call served by a full-duplex handler; the request messages arrive in 7-byte
+		// pieces, so a receive is in the middle of a frame when the other goroutine sends
+		msg2 := s.t.newReq("", append([]byte(tag+";"), c13Payload(thread+3, size)...), 0)
+		sc.MaxRead = 7
+		if kind == "grpc-duplex" {
+			pb2, _ := proto.Marshal(msg2)
+			res = doGRPCSched(s.mux, "/vs.T/Bidi", "application/grpc+proto", http.Header{"X-Duplex": {tag}}, body(append(wire.GRPCFrame(0, pb), wire.GRPCFrame(0, pb2)...)))
+		} else {
+			js2, _ := protojson.Marshal(msg2)
+			res = doHTTPSched(s.mux, "POST", "/t/bidi", http.Header{"Content-Type": {"application/json"}, "X-Duplex": {tag}}, body(append(append([]byte{}, js...), compactJSON(js2)...)))
+		}
+	case "mount-json":
+		// through NewServer's mount: whatever the server layer adds per request is shared state too
+		res = doHTTPSched(s.srv, "POST", "/api/t/unary", http.Header{"Content-Type": {"application/json"}}, body(js))
+	case "mount-escaped-json":
+		// history inside one client: first a request the mount itself turns away (the prefix
+		// spelled with a percent escape), then a good one
+		rd, cl := schedReader(body(js))
+		req := newPostRequest("/api/t/unary", http.Header{"Content-Type": {"application/json"}}, rd, cl)
+		req.URL.RawPath = "/ap%69/t/unary"
+		req.RequestURI = req.URL.RawPath
+		rec := env.NewRecorder()
+		p, txt := guard(func() { s.srv.ServeHTTP(rec, req) })
+		rec.Finish()
+		if p {
+			return "PANIC " + txt
+		}
+		res = doHTTPSched(s.srv, "POST", "/api/t/unary", http.Header{"Content-Type": {"application/json"}}, body(js))
+		defer func(first int) { _ = first }(rec.Code)
 	case "grpc":
 		res = doGRPCSched(s.mux, "/vs.T/Unary", "application/grpc", nil, body(wire.GRPCFrame(0, pb)))
 	case "grpc-gzip":
@@ -231,6 +307,15 @@ func c13Request(s *c13Sys, thread int, kind string, size int) string {
 		}
 	default:
 		parts = append(parts, fmt.Sprintf("ct=%s body=%s", res.Header.Get("Content-Type"), c13Canon(res.Body)))
+	}
+	if strings.HasSuffix(kind, "-duplex") {
+		s.impl.mu.Lock()
+		for _, b := range s.impl.seen {
+			if bytes.HasPrefix(b, []byte(tag)) {
+				parts = append(parts, fmt.Sprintf("handler-saw=%x", b))
+			}
+		}
+		s.impl.mu.Unlock()
 	}
 	return strings.Join(parts, " ")
 }
@@ -416,6 +501,13 @@ func c13Scenarios(thorough bool) []*e3Scenario {
 		}
 		scs = append(scs, sc)
 	}
+	// one stream, two goroutines: a full-duplex handler (alone, and next to another request)
+	scs = append(scs, c13Scenario([]string{"grpc-duplex"}, []int{20}), c13Scenario([]string{"http-duplex"}, []int{20}))
+	if !thorough {
+		scs = append(scs, c13Scenario([]string{"grpc-duplex", "grpc"}, []int{20, 34}))
+	}
+	// through the server's mounts, after a request the mount turned away
+	scs = append(scs, c13Scenario([]string{"mount-escaped-json", "mount-json"}, []int{20, 34}))
 	// scale: messages that compress well and decompress to more than the pooled frame buffer holds
 	// (the small payloads above gzip to more than their own size, so they never leave that buffer)
 	for _, p := range [][2]string{{"grpc-gzip", "grpc-gzip"}, {"grpc-gzip", "web-gzip"}, {"web-gzip", "http-json-gzip"}, {"grpc-gzip", "grpc"}} {
